@@ -18,7 +18,7 @@ static size_t pick_max_size(Rng &rng, int tier, int level) {
 struct C01 : Driver {
   const char *prop() const override { return "C01"; }
   const char *level() const override { return "exploration"; }
-  uint64_t ncases(int tier) const override { return tier ? 40000 : 2400; }
+  uint64_t ncases(int tier) const override { return tier ? 300000 : 20000; }
   std::string rule() const override {
     return "case = (generated input, level 1-9, --sequential or not, -n 1..16, stdin file/pipe with fragmentation, seeded scheduling policy) compressed in one simulated process and "
            "decompressed in a second one under independently drawn worker count, policy, input block size and output buffer size; oracle: both exit 0, both stderr empty, bytes equal. "
@@ -64,7 +64,7 @@ static Registrar r01(new C01);
 struct C03 : Driver {
   const char *prop() const override { return "C03"; }
   const char *level() const override { return "exploration"; }
-  uint64_t ncases(int tier) const override { return tier ? 5000 : 500; }
+  uint64_t ncases(int tier) const override { return tier ? 40000 : 6000; }
   std::string rule() const override {
     return "case = one (input, level, mode) compressed under K configurations (K=6 quick, 16-24 thorough) of everything that must not matter: -n 1..16, scheduling policy and seed incl. starved reader/writer/worker, "
            "stdin file vs pipe with random/1-byte-short/fixed fragmentation, short writes, stdout vs FILE operand, heap junk pattern; oracle: all outputs byte-identical to the -n 1 default-schedule run. "
@@ -156,7 +156,7 @@ static Bytes some_compressed(Rng &rng, int tier, Bytes *plain_out, std::string *
 struct C09 : Driver {
   const char *prop() const override { return "C09"; }
   const char *level() const override { return "exploration"; }
-  uint64_t ncases(int tier) const override { return tier ? 12000 : 1200; }
+  uint64_t ncases(int tier) const override { return tier ? 80000 : 8000; }
   std::string rule() const override {
     return "case = one compressed input (valid, invalid or documented-exception; libbz2 output, generated streams, planted block-header patterns, truncations) decompressed under K configurations (K=6 quick, 12-16 thorough): "
            "-n 1..16, scheduling policy/seed, read fragmentation, input block size 4 B..64 KiB (hook H1), output buffer size 1 B..100000 B (hook H1), output to stdout / FILE operand / -c / -t; "
@@ -227,7 +227,7 @@ static Registrar r09(new C09);
 struct C11 : Driver {
   const char *prop() const override { return "C11"; }
   const char *level() const override { return "exploration"; }
-  uint64_t ncases(int tier) const override { return tier ? 200000 : 12000; }
+  uint64_t ncases(int tier) const override { return tier ? 600000 : 50000; }
   std::string rule() const override {
     return "case = one simulated run of compression (default or --sequential; 0..40 chunks, chunks that split into several blocks, tiny last chunks), decompression (0..60 blocks, blocks that emit many output buffers, "
            "blocks spanning many input blocks, spurious header patterns, trailing garbage) or -cdf copy, -n 1..16, under an adversarial seeded schedule (starved writer/reader/main/worker subsets, PCT, sticky, phases, spurious wake-ups); "
@@ -400,7 +400,7 @@ static Verdict eval_mixed(const Case &c, Ctx &ctx, bool heap_monitor) {
 struct C12 : Driver {
   const char *prop() const override { return "C12"; }
   const char *level() const override { return "exploration"; }
-  uint64_t ncases(int tier) const override { return tier ? 20000 : 1200; }
+  uint64_t ncases(int tier) const override { return tier ? 12000 : 1000; }
   const char *variants(int) const override { return "tsan"; }
   std::string rule() const override {
     return "case = compression (both modes) followed by decompression, decompression of valid/invalid/planted streams (incl. error exits), or -cdf copy, -n 2..8, seeded schedule, executed in the ThreadSanitizer build "
@@ -416,7 +416,7 @@ static Registrar r12(new C12);
 struct C08 : Driver {
   const char *prop() const override { return "C08"; }
   const char *level() const override { return "exploration"; }
-  uint64_t ncases(int tier) const override { return tier ? 30000 : 1600; }
+  uint64_t ncases(int tier) const override { return tier ? 20000 : 1800; }
   const char *variants(int tier) const override { return tier ? "asan asan-ndebug" : "asan asan-ndebug"; }
   std::string rule() const override {
     return "case = compression+decompression, decompression of valid/defective/truncated/planted streams with input block sizes down to 4 bytes and output buffers down to 1 byte, or -cdf copy, any -n, seeded schedule, "
@@ -432,17 +432,18 @@ static Registrar r08(new C08);
 // ===================================================================== C13
 // Frozen bounds on peak live heap (bytes), fixed when the check was written (see DESIGN.md C13);
 // deliberately not derived from the tree under test.
-static size_t bound_compress(int W, int level) { return (size_t)W * ((size_t)level * 1070000 + 420000) + (size_t)level * 260000 + 700000; }
+// compression: 2W input chunks of C = level*100000 bytes, W encoders of about 5C + 0.33 MB, 2W+2 output blocks of about 1.01C
+static size_t bound_compress(int W, int level) { size_t C = (size_t)level * 100000; return (size_t)W * (C * 92 / 10 + 360000) + C * 22 / 10 + 200000; }
 static size_t bound_decompress(int W) { return (size_t)W * 20700000 + 2500000; }
 
 struct C13 : Driver {
   const char *prop() const override { return "C13"; }
   const char *level() const override { return "exploration"; }
-  uint64_t ncases(int tier) const override { return tier ? 1500 : 96; }
+  uint64_t ncases(int tier) const override { return tier ? 4000 : 480; }
   std::string rule() const override {
     return "case = a group of runs with input sizes n, 2n, 4n, 8n (compression at level 1 or 9; decompression of highly expanding streams up to 48 MB of output, concatenated bombs) at one worker count from {1,2,4,8} "
            "under one adversarial scheduling policy (writer starved until every output slot is full, reader racing ahead, workers starved); measure = peak live heap bytes of the simulated process from the tracking allocator; "
-           "oracle: peak <= frozen linear bound(W) for every run, and peak(8n) <= 1.05 * max(peak(n), bound/2) (no growth with size). distinct_nontrivial = distinct (mode, W, policy parameter, size class) tuples";
+           "oracle: peak <= frozen linear bound(W) for every run at every size, and the live heap left at exit does not grow with the input size (<= 64 KiB more at 8n than at n). distinct_nontrivial = distinct (mode, W, policy parameter, size class) tuples";
   }
   std::vector<std::string> assumptions() const override { return {"peak live heap is the schedule-dependent part of resident memory; thread stacks and program text are constant per thread and excluded; real RSS is not measured"}; }
   Case gen(uint64_t seed, int tier) const override {
@@ -455,7 +456,7 @@ struct C13 : Driver {
     if (tier == 0 && level == 9 && W == 8) W = 4;
     c.p["W"] = W; c.p["mode"] = mode; c.p["level"] = level;
     c.p["dataseed"] = (int64_t)(rng.next() >> 1);
-    c.p["shape"] = (int64_t)rng.below(3);
+    c.p["shape"] = (int64_t)rng.below(4);
     sim::Sched s = random_sched(rng, false);
     if (rng.below(3)) { s.policy = sim::P_STARVE; static const uint32_t m[] = {1u << sim::FC_SINK, 1u << sim::FC_SINK, (1u << sim::FC_SINK) | (1u << sim::FC_WORKER), 1u << sim::FC_SOURCE, 128}; s.param = m[rng.below(5)]; }
     for (int k = 0; k < 4; k++) {
@@ -477,12 +478,13 @@ struct C13 : Driver {
       size_t n = base * mult;
       if (shape == 0) return Bytes(n, 'x');
       if (shape == 1) return gen::periodic(rng, n);
-      return gen::random_bytes(rng, n, 4);
+      if (shape == 2) return gen::random_bytes(rng, n, 4);
+      return gen::random_bytes(rng, n, 256);       // incompressible: output blocks as large as the input chunks
     }
     // decompression: streams that expand enormously
     size_t plain_n = (size_t)6000000 * mult;    // 6, 12, 24, 48 MB
     Bytes z;
-    size_t piece = shape == 0 ? plain_n : 3000000;
+    size_t piece = shape == 0 ? plain_n : shape == 3 ? 900000 : 3000000;
     for (size_t off = 0; off < plain_n; off += piece) {
       Bytes p(std::min(piece, plain_n - off), shape == 2 ? (char)0xFF : 'a');
       z += bz::libbz2_encode(p, 9);
@@ -492,7 +494,7 @@ struct C13 : Driver {
   Verdict eval(const Case &c, Ctx &ctx) const override {
     int W = (int)c.p.at("W"), mode = (int)c.p.at("mode"), level = (int)c.p.at("level");
     size_t bound = mode == 0 ? bound_compress(W, level) : bound_decompress(W);
-    size_t first_peak = 0;
+    size_t first_peak = 0, first_final = 0;
     for (size_t k = 0; k < c.runs.size(); k++) {
       Bytes in = make_input(c, (int)k);
       RunCfg r = c.runs[k];
@@ -503,9 +505,11 @@ struct C13 : Driver {
       if (ctx.st) { ctx.st->max(std::string("peak.") + (mode ? "decompress" : "compress" + std::to_string(level)) + ".W" + std::to_string(W), a.peak_heap); ctx.st->max(std::string("bound.") + (mode ? "decompress" : "compress" + std::to_string(level)) + ".W" + std::to_string(W), bound); }
       if (a.peak_heap > bound)
         return Verdict::fail("bound-exceeded", "peak live heap " + std::to_string(a.peak_heap) + " bytes exceeds the frozen bound " + std::to_string(bound) + " for W=" + std::to_string(W) + " (" + r.brief() + ", input " + std::to_string(in.size()) + " bytes)");
-      if (k == 0) first_peak = a.peak_heap;
-      else if (a.peak_heap > std::max(first_peak, bound / 2) * 21 / 20)
-        return Verdict::fail("grows-with-size", "peak live heap grew from " + std::to_string(first_peak) + " to " + std::to_string(a.peak_heap) + " bytes when the input grew " + std::to_string(1 << k) + "-fold (" + r.brief() + ")");
+      // growth with size: what is still allocated when the process exits must not depend on the input size
+      // (a per-block buffer that is never released shows up here long before it breaks the bound)
+      if (k == 0) { first_peak = a.peak_heap; first_final = a.final_heap; }
+      else if (a.final_heap > first_final + 65536)
+        return Verdict::fail("grows-with-size", "live heap at exit grew from " + std::to_string(first_final) + " to " + std::to_string(a.final_heap) + " bytes when the input grew " + std::to_string(1 << k) + "-fold: memory that is never released (" + r.brief() + ")");
       if (ctx.st) ctx.st->distinct("nontrivial", sim::fnv(sim::fnv(sim::fnv(mode * 100 + level, W), c.runs[0].sched.param * 8 + c.runs[0].sched.policy), k));
     }
     if (ctx.st) add_sample(ctx, c, "\"bound\": " + std::to_string(bound) + ", \"first_peak\": " + std::to_string(first_peak));
